@@ -161,18 +161,38 @@ def _select_concrete(arr, idx, cache, positive, span):
     return z3.Select(arr, *idx)
 
 
+def abstract_lambdas(t, table, keep):
+    """replace closed lambda terms (e.g. array arguments of uninterpreted functions) by fresh array constants: an
+    over-approximation that turns the candidate search into a quantifier-free problem"""
+    if z3.is_quantifier(t):
+        if t.is_lambda():
+            k = t.get_id()
+            if k not in table:
+                table[k] = z3.FreshConst(t.sort(), "lam")
+                keep.append(t)
+            return table[k]
+        return t
+    if not z3.is_app(t) or t.num_args() == 0:
+        return t
+    args = [abstract_lambdas(c, table, keep) for c in t.children()]
+    try:
+        return t.decl()(*args)
+    except Exception:      # noqa
+        return t
+
+
 def concretised_candidate(ob, leaves, sizes, timeout_ms=8000):
-    if not sizes:
-        return None
-    for n in (2, 3):
-        sub = [(sz, z3.IntVal(n)) for sz in sizes]
+    for n in ((2, 3, 4) if sizes else (4,)):
+        sub = [(sz, z3.IntVal(n)) for sz in sizes] or [(z3.Int("qvc!none"), z3.IntVal(0))]
         cache = {}
+        table, keep = {}, []
         s = z3.Solver()
         s.set("timeout", timeout_ms)
         try:
             for h in ob.hyps:
-                s.add(expand_concrete(z3.simplify(z3.substitute(h, *sub)), cache, True, n))
+                s.add(abstract_lambdas(expand_concrete(z3.simplify(z3.substitute(h, *sub)), cache, True, n), table, keep))
             g = expand_concrete(z3.simplify(z3.substitute(ob.goal, *sub)), cache, True, n)
+            g = abstract_lambdas(g, table, keep)
             s.add(z3.Not(g))
             for sz in sizes:
                 s.add(sz == n)
@@ -263,6 +283,17 @@ def _solve(idx):
         for a in sum_succ_instances([goal]):
             s.add(a)
     insts = manual_instances(ob.hyps, goal, sks)
+    # stage 0: quantifier-free hypotheses and ground instances only (fewer hypotheses: a proof here is a proof);
+    # quantified hypotheses that are irrelevant to the goal otherwise make the solver diverge on non-linear goals
+    if not _has_quantifier(goal):
+        s0 = z3.Solver()
+        s0.set("timeout", 1200)
+        for h in list(ob.hyps) + list(plain_axioms) + list(insts):
+            if not _has_quantifier(h):
+                s0.add(h)
+        s0.add(z3.Not(goal))
+        if s0.check() == z3.unsat:
+            return idx, "proved", None, time.time() - t0, "z3", None
     for inst in insts:
         s.add(inst)
     s.add(z3.Not(goal))
